@@ -112,6 +112,15 @@ def dispersion_rules(ctx):
                 if v != T.Verdict.EQUAL:
                     v2 = T.equivalent(iterate[3], kc - ec / deriv)
                     v = v2 if v2 == T.Verdict.EQUAL else v
+                if v != T.Verdict.EQUAL:
+                    # the exact derivative d omega / dk without the deep-water switch is the same Newton step
+                    try:
+                        exact = sp.diff(omega_ref(kc, d, g), kc)
+                        step = sp.simplify((kc - T.to_term(iterate[3])) * exact - ec)
+                        if step == 0:
+                            v = T.Verdict.EQUAL
+                    except Exception:
+                        pass
                 ctx.expect(True if v == T.Verdict.EQUAL else (None if v == T.Verdict.UNKNOWN else False), "R07.2",
                            C + "[update]", "k <- k - residual / (n(kd) * w / k), n switching at kd > 5 like "
                            "ratio_group_velocity_to_phase_velocity", L.loc, derived=iterate[3], required=new_k)
